@@ -215,6 +215,90 @@ func c14Scenarios(tier string) []*Scenario {
 			scs = append(scs, sc)
 		}
 	}
+	// the process editor / a REST client: the configuration is fetched from the runner (it carries the
+	// executable and arguments assigned earlier), one launch-relevant field is edited, and it is sent back
+	for _, field := range []string{"entrypoint", "environment", "working_dir"} {
+		field := field
+		init := map[string]c14Proc{"a": c14Base(), "b": c14Base()}
+		sc := &Scenario{ID: "c14-editor:" + field, YAML: c14Project(init), K: 0, EnvCost: 1, Horizon: 100 * time.Second,
+			Procs: map[string]*ProcScript{"d": {Launches: exits(0)}, "a": {}, "b": {}}}
+		ready := func(w *World) bool {
+			alive := 0
+			for _, f := range w.procs {
+				if f.Alive() && f.Name != "d" {
+					alive++
+				}
+			}
+			return alive == 2 && w.launches["d#0"] > 0
+		}
+		sc.API = [][]APICall{{{Op: "fn", Name: "edit:a:" + field, When: ready, Fn: func(w *World) (string, error) {
+			cur, err := w.Runner.GetProcessInfo("a")
+			if err != nil {
+				return "", err
+			}
+			pc := *cur
+			switch field {
+			case "entrypoint":
+				pc.Entrypoint = []string{"run-it2", "y"}
+			case "environment":
+				pc.Environment = []string{"K=2"}
+			case "working_dir":
+				pc.WorkingDir = "/tmp"
+			}
+			return "", w.Runner.UpdateProcess(&pc)
+		}}}}
+		sc.Check = func(w *World) []Violation {
+			var vs []Violation
+			tr := w.pre()
+			ret := findEvent(tr, 0, func(e Event) bool { return e.Kind == "api-ret" })
+			if ret < 0 {
+				if findEvent(tr, 0, func(e Event) bool { return e.Kind == "api-call" }) >= 0 && w.Outcome != "deadlock" {
+					vs = append(vs, viol("C14", "update-blocked:"+blockedKinds(w, "api"), "UpdateProcess did not return (outcome %s, blocked %v)", w.Outcome, w.Blocked))
+				}
+				return vs
+			}
+			if tr[ret].Flag {
+				return append(vs, viol("C14", "update-error", "UpdateProcess failed: %s", tr[ret].Data))
+			}
+			var last *FProc
+			starts := 0
+			for _, f := range w.procs {
+				if f.Key == key0("a") {
+					last = f
+					starts++
+				}
+			}
+			if starts != 2 || last == nil {
+				return append(vs, viol("C14", "kept-but-changed:"+field, "the %s of a was edited but %d commands of a were launched in all (want the old and one new)", field, starts))
+			}
+			want := c14Base()
+			switch field {
+			case "entrypoint":
+				want.Exe, want.Arg = "run-it2", "y"
+			case "environment":
+				want.Env = "K=2"
+			case "working_dir":
+				want.Dir = "/tmp"
+			}
+			if (len(last.Args) < 2 || last.Args[0] != want.Exe || last.Args[1] != want.Arg) && !(strings.HasSuffix(last.cmd.Path, "/"+want.Exe) && len(last.Args) >= 2 && last.Args[1] == want.Arg) {
+				vs = append(vs, viol("C14", "new-instance-config:command", "after the %s was edited the new instance of a runs %v, want %s %s", field, last.Args, want.Exe, want.Arg))
+			}
+			if e := effectiveEnv(last.Env); e["K"] != strings.TrimPrefix(want.Env, "K=") {
+				vs = append(vs, viol("C14", "new-instance-config:environment", "new instance of a has K=%s, want %s", e["K"], want.Env))
+			}
+			if last.Dir != want.Dir {
+				vs = append(vs, viol("C14", "new-instance-config:working_dir", "new instance of a runs in %s, want %s", last.Dir, want.Dir))
+			}
+			for _, e := range tr {
+				if e.Proc == key0("b") && (e.Kind == "signal" || e.Kind == "exit") {
+					vs = append(vs, viol("C14", "restarted-unchanged:same", "process b is untouched by the edit of a but got a %s", e.Kind))
+					break
+				}
+			}
+			return vs
+		}
+		scs = append(scs, sc)
+	}
 	// two successive updates
 	seconds := []string{"same", "removed", "changed:args", "changed:environment"}
 	firsts := []string{"changed:args", "changed:description", "removed"}
